@@ -2,6 +2,7 @@
 //! one JSON report on stdout.
 
 pub mod chain;
+pub mod corpus;
 pub mod c01;
 pub mod backend;
 pub mod middle;
